@@ -338,9 +338,9 @@ class Simulator(EventProducer, SimulatorInterface, Generic[TIME]):
         self._run_state = RunState.NOT_INITIALIZED
         self._replication_state = ReplicationState.NOT_INITIALIZED
     
-    def _start_impl(self):
-        """Implementation of the start method. Checks preconditions for 
-        running and fires the right events."""
+    def _check_start(self):
+        """Check the preconditions for starting a run; raises DSOLError 
+        without changing anything when the simulator cannot be started."""
         if self.is_starting_or_running():
             raise DSOLError("cannot start a running simulator")
         if self._replication == None:
@@ -352,6 +352,11 @@ class Simulator(EventProducer, SimulatorInterface, Generic[TIME]):
             raise DSOLError("replication state not INITIALIZED or STARTED")
         if self._simulator_time > self._replication.end_sim_time:
             raise DSOLError("cannot start: simulator_time > run length")
+
+    def _start_impl(self):
+        """Implementation of the start method. Checks preconditions for 
+        running and fires the right events."""
+        self._check_start()
         self._run_state = RunState.STARTING
         if self._replication_state == ReplicationState.INITIALIZED:
             self.fire_timed(self._simulator_time,
@@ -374,6 +379,7 @@ class Simulator(EventProducer, SimulatorInterface, Generic[TIME]):
         replication when starting the simulator."""
         if self._replication == None:
             raise DSOLError("no replication details")
+        self._check_start()
         self._run_until_time = self._replication.end_sim_time
         self._run_until_including = True
         self._start_impl()
@@ -441,6 +447,7 @@ class Simulator(EventProducer, SimulatorInterface, Generic[TIME]):
         """Runs the simulator up to a certain time; any events at that time, 
         or the solving of the differential equation at that timestep, 
         will not yet be executed."""
+        self._check_start()
         if self._replication is not None:
             if stop_time < self._simulator_time:
                 raise DSOLError("cannot run up to a time in the past")
@@ -455,6 +462,7 @@ class Simulator(EventProducer, SimulatorInterface, Generic[TIME]):
         """Runs the simulator up to a certain time; all events at that time, 
         or the solving of the differential equation at that timestep, 
         will be executed."""
+        self._check_start()
         if self._replication is not None:
             if stop_time < self._simulator_time:
                 raise DSOLError("cannot run up to a time in the past")
